@@ -1,5 +1,6 @@
 import SE.Proofs.GlobBridge
 import SE.Proofs.GlobUnordered
+import SE.Proofs.GlobDeterministic
 /-
 Bridge between `lookupGlob` / `mostSpecificGlob` on a `Config` and the type-root level results,
 for unordered mode (and soundness in any mode).
@@ -73,20 +74,34 @@ theorem lookupGlob_sound (cfg : Config V) (name : Bytes) (ty : Nat) (m : Mapped)
     refine ⟨y.1.1, hk.2.1, ?_⟩
     simp [ruleMatchesGlob, hk.2.2.1, hk.2.2.2, hyp, h1]
 
+/-- `TestIfNeedBacktracking = true` is one way to have `BacktrackingNeeded = true` -/
+theorem backtracking_of_needBT {rules : List GRule} {od : Bool}
+    (h : needBT (rules.map (·.pat)) od = true) : backtracking rules od = true := by
+  simp [backtracking, h]
+
 /-- unordered mode with backtracking enabled: `FSM.GetMapping` -/
 theorem globLookup_unordered_bt (cfg : Config V) (hod : cfg.orderingDisabled = true)
-    (hbt : needBT ((toGRules cfg).map (·.pat)) true = true) (name : Pat) (ty : Nat) :
+    (hbt : backtracking (toGRules cfg) true = true) (name : Pat) (ty : Nat) :
     globLookup (toGRules cfg) cfg.orderingDisabled name ty =
       pick false (dfs (rulesFor (toGRules cfg) ty) true [] [] name) := by
   simp only [globLookup, hod, hbt, Bool.not_true]
 
-/-- unordered mode, backtracking enabled: the lookup is the spec's most specific matching glob rule -/
-theorem lookupGlob_unordered_bt (cfg : Config V) (hod : cfg.orderingDisabled = true)
-    (hbt : needBT ((toGRules cfg).map (·.pat)) true = true) (name : Bytes) (ty : Nat) :
+/-- unordered mode after the repair, whatever `BacktrackingNeeded` is: `FSM.GetMapping` returns the first
+    final state of the backtracking search -/
+theorem globLookup_unordered_cfg (cfg : Config V) (hod : cfg.orderingDisabled = true) (name : Pat) (ty : Nat) :
+    globLookup (toGRules cfg) cfg.orderingDisabled name ty =
+      pick false (dfs (rulesFor (toGRules cfg) ty) true [] [] name) := by
+  rw [hod]; exact globLookup_unordered _ name ty
+
+/-- if the lookup is the first final state of the backtracking search, it is the spec's most specific
+    matching glob rule -/
+theorem lookupGlob_of_eq_pick_bt (cfg : Config V) (name : Bytes) (ty : Nat)
+    (heq : globLookup (toGRules cfg) cfg.orderingDisabled (splitOn 46 name) ty =
+      pick false (dfs (rulesFor (toGRules cfg) ty) true [] [] (splitOn 46 name))) :
     (lookupGlob cfg name ty).map (·.ruleIdx) = mostSpecificGlob cfg name ty := by
   rw [mostSpecificGlob_eq]
   unfold lookupGlob
-  rw [globLookup_unordered_bt cfg hod hbt]
+  rw [heq]
   cases hp : pick false (dfs (rulesFor (toGRules cfg) ty) true [] [] (splitOn 46 name)) with
   | none =>
     rw [unordered_pick_none_iff _ _ (splitOn_ne_nil _ _)] at hp
@@ -141,6 +156,18 @@ theorem lookupGlob_unordered_bt (cfg : Config V) (hod : cfg.orderingDisabled = t
       rw [List.mem_filter] at hz
       simp only [hyp']
       exact hminKK z (by rw [hkk]; simp [hz.1]) hz.2
+
+/-- unordered mode, backtracking enabled: the lookup is the spec's most specific matching glob rule -/
+theorem lookupGlob_unordered_bt (cfg : Config V) (hod : cfg.orderingDisabled = true)
+    (hbt : backtracking (toGRules cfg) true = true) (name : Bytes) (ty : Nat) :
+    (lookupGlob cfg name ty).map (·.ruleIdx) = mostSpecificGlob cfg name ty :=
+  lookupGlob_of_eq_pick_bt cfg name ty (globLookup_unordered_bt cfg hod hbt _ ty)
+
+/-- unordered mode after the repair: the lookup is the spec's most specific matching glob rule, for every
+    configuration, name and type -/
+theorem lookupGlob_unordered (cfg : Config V) (hod : cfg.orderingDisabled = true) (name : Bytes) (ty : Nat) :
+    (lookupGlob cfg name ty).map (·.ruleIdx) = mostSpecificGlob cfg name ty :=
+  lookupGlob_of_eq_pick_bt cfg name ty (globLookup_unordered_cfg cfg hod _ ty)
 
 /-! ### characterisation of `mostSpecificGlob` and order independence -/
 
